@@ -39,6 +39,8 @@ def judge(src):
     rep = r["report"]
     text = src.strip()
     v = RO.check(rep, text)
+    if v:
+        return v, r       # the report does not reproduce the text: positions inside it mean nothing
     if "atok" in h:
         # the lines that could not be parsed, read off the text that *was* parsed (the partial parser blanks them),
         # not from the auditor's own bookkeeping
